@@ -515,6 +515,11 @@ class RESI(Command):
             if self.shx.debug:
                 raise ParseSyntaxError(debug=self.shx.debug, verbose=self.shx.verbose)
 
+    def set(self, value):
+        super().set(value)
+        # The atoms are looked up by 'name_residue number', these names have changed now:
+        self.shx.atoms._atomsdict.clear()
+
     def _get_resi_definition(self, resi: List[str]) -> Tuple[str, int, str, int]:
         """
         RESI class[ ] number[0] alias
